@@ -281,6 +281,17 @@ func TestVerifC07_ProcInteractive(t *testing.T) {
 				t.Fatalf("after %v: selection/position do not settle: %s", history, describe(st))
 			}
 		}
+		// optionally the query is changed at the end so that nothing matches any more: what was
+		// selected is still printed (status 0); without a selection nothing is (status 1)
+		if rapid.IntRange(0, 3).Draw(t, "lastQueryMatchesNothing") == 0 {
+			initQuery = "zzqzzqzz"
+			history = append(history, "POST change-query("+initQuery+")")
+			s.Post("change-query(" + initQuery + ")")
+			if st, ok := s.WaitFor(10, func(st *Status) bool { return st.Query == initQuery && st.MatchCount == 0 }); !ok {
+				t.Fatalf("after %v: the list does not become empty: %s", history, describe(st))
+			}
+			results = nil
+		}
 		endings := []string{"accept", "accept", "abort", "print-query"}
 		if expect != "" {
 			endings = append(endings, "expect-key", "expect-key")
